@@ -181,6 +181,24 @@ def calls_to_fn_(F, g, target):
     return calls_to_fn(F, g, target)
 
 
+def _closure_substitute(F, ctx, lf, latoms):
+    """does the value sliced by `latoms` in lf pass through a std combinator whose closure argument (a closure of lf) calls a crate function that produces a File without
+    a literal flag under which it is created exclusively?"""
+    combs = [a for a in latoms if a[0] == 'call' and a[2] not in F.by_path and any(
+        '{closure@' in lf.locals[op_local(x)]['ty'] for x in lf.term(a[1]).get('args', []) if op_local(x) is not None)]
+    if not combs:
+        return False
+    for cl in F.fns:
+        if cl.kind != 'Closure' or cl.owner is not lf:
+            continue
+        for bb, t, target, c in F.call_sites(cl):
+            if target is None or 'std::fs::File' not in target.locals[0]['ty']:
+                continue
+            if not any(v and _creates_new_under(F, ctx, target, p, v) for p, v in const_args(target, t, cl).items()):
+                return True
+    return False
+
+
 def created_exclusively(ctx, fn, operand, callers):
     """name of the local open helper that produced the file with a literal `true` for a flag under which it applies create_new(true) -- looked for in the slice of the
     operand in fn and, through fn's parameters, in the callers on the trace context (`write_fully(&mut file, buf)`); None otherwise"""
@@ -195,10 +213,15 @@ def created_exclusively(ctx, fn, operand, callers):
                     g = F.by_path[a[2]]
                     for p, v in const_args(g, lf.term(a[1]), lf).items():
                         if v and _creates_new_under(F, ctx, g, p, v):
+                            # ... unless a combinator on the way (`.or_else(|_| open_file(path, false))`) can substitute a file opened another way
+                            if _closure_substitute(F, ctx, lf, latoms):
+                                return None
                             return g.qual
                 if a[0] == 'arg' and lctx:
                     cfn, cbb = lctx[-1][0], lctx[-1][1]
-                    cargs = cfn.term(cbb)['args']
+                    cargs = cfn.term(cbb).get('args')
+                    if cargs is None:
+                        continue        # the frame is drop glue (a destructor inlined at a `drop`): nothing is passed in
                     if 1 <= a[1] <= len(cargs):
                         nxt.append((cfn, cargs[a[1] - 1], lctx[:-1]))
         level = nxt
@@ -810,6 +833,9 @@ def run(ctx, tier):
     results += c02.cow_free_set(ctx, rule='C06.cow.free-set')
     # a failed growth leaves the shared size / map as they were (the new value exists only behind the success of the allocation)
     results += c16.grow(ctx, rule='C06.grow')
+    # the first commit on a file with legacy headers must go to the other slot like any commit: the converted header keeps its slot number
+    import c15
+    results += c15.legacy_fallback(ctx, rule='C06.legacy-conversion')
     import c16
     results += ob['O6'] + c16.strict_guard(ctx, rule='C06.strict-before-header')
     return dict(
